@@ -5,9 +5,12 @@ PID = "C17"
 K = "ABEiM0RVZneImaq7zN3u/w=="
 W = "AAAAAAAAAAAAAAAAAAAAAA=="
 LONGDIR = "L" * 180
+D122 = "M" * 110      # D122 + "/" + 11-character file name = 122 characters
+P122 = D122 + "/f2345678.bi"
+P123 = D122 + "/f2345678.bin"
 EXPAND = {"e": ["-e"], "d": ["-d"], "v": ["-v"], "V": ["-V"], "h": ["-h"], "le": ["--encode"], "ld": ["--decode"], "lv": ["--verify"],
           "en": ["-en"], "dn": ["-dn"], "vn": ["-vn"], "n": ["-n"],
-          "iF": ["-i", "F.bin"], "iE": ["--input", "E.wenc"], "iMissing": ["-i", "missing.bin"], "iLong": ["-i", LONGDIR + "/f.bin"], "iNoArg": ["-i"], "iProc": ["-i", "/proc/version"],
+          "iF": ["-i", "F.bin"], "iE": ["--input", "E.wenc"], "iMissing": ["-i", "missing.bin"], "iLong": ["-i", LONGDIR + "/f.bin"], "iLen122": ["-i", P122], "iLen123": ["-i", P123], "iNoArg": ["-i"], "iProc": ["-i", "/proc/version"],
           "oO": ["-o", "O.out"], "oBad": ["-o", "nodir/x.out"],
           "kK": ["-k", K], "kW": ["--key", W], "kShort": ["-k", K[:-1]], "kBadChar": ["-k", K[:20] + "!" + K[21:]],
           "kNoPad": ["-k", K[:22] + "AA"], "kOnePad": ["-k", K[:22] + "A="], "kLong": ["-k", K[:22] + "AAAA=="], "kHigh": ["-k", K[:5] + "\udcc1" + K[6:]],
@@ -31,8 +34,9 @@ def run_bin(exe, argv, cwd, timeout=30):
 
 
 def make_template(exe, root):
-    t = os.path.join(root, "template"); os.makedirs(os.path.join(t, LONGDIR))
-    for p in ("F.bin", LONGDIR + "/f.bin"):
+    t = os.path.join(root, "template"); os.makedirs(os.path.join(t, LONGDIR)); os.makedirs(os.path.join(t, D122))
+    assert len(P122) == 122 and len(P123) == 123
+    for p in ("F.bin", LONGDIR + "/f.bin", P122, P123):
         open(os.path.join(t, p), "wb").write(PLAIN)
     rc, out, to = run_bin(exe, ["-e", "-i", "F.bin", "-o", "E.wenc", "-k", K, "--cmode", "1"], t)
     if rc != 0 or not os.path.exists(os.path.join(t, "E.wenc")):
@@ -74,7 +78,7 @@ def one_vector(exe, template, root, idx, vec):
         if mode == "e":
             inp = None; outp = None; key = None
             for t in toks:
-                if t in ("iF", "iE", "iLong", "iProc"): inp = EXPAND[t][1]
+                if t in ("iF", "iE", "iLong", "iProc", "iLen122", "iLen123"): inp = EXPAND[t][1]
                 if t == "oO": outp = "O.out"
                 if t in ("kK", "kW"): key = EXPAND[t][1]
             if outp is None and inp is not None:
@@ -123,7 +127,7 @@ def run(tier, replay):
         if tier == "quick":
             vecs = rng.sample(okv, min(len(okv), 260)) + rng.sample(failv, 340)
             # the pinned defects' vectors are always included
-            must = [["e", "iProc"], ["e", "iProc", "oO"], ["en", "iProc"], ["d", "iE", "oO"], ["v", "iE"], ["d", "iE", "kK"], ["e", "iLong"], ["e", "iF", "oO", "c256"], ["e", "iF", "oO", "kNoPad"], ["e", "iF", "oO", "kOnePad"], ["e", "iF", "oO", "kHigh"], ["d", "iE", "oO", "kHigh"], ["e", "iF"], ["d"], ["v"], ["e"]]
+            must = [["e", "iLen122"], ["e", "iLen123"], ["en", "iLen123", "kK"], ["e", "iProc"], ["e", "iProc", "oO"], ["en", "iProc"], ["d", "iE", "oO"], ["v", "iE"], ["d", "iE", "kK"], ["e", "iLong"], ["e", "iF", "oO", "c256"], ["e", "iF", "oO", "kNoPad"], ["e", "iF", "oO", "kOnePad"], ["e", "iF", "oO", "kHigh"], ["d", "iE", "oO", "kHigh"], ["e", "iF"], ["d"], ["v"], ["e"]]
             have = set(tuple(v["tokens"]) for v in vecs)
             vecs += [v for v in allv if v["tokens"] in must and tuple(v["tokens"]) not in have]
         else:
